@@ -880,6 +880,10 @@ func (c *Chunker) splitSectionByParagraphs(section *Section, chunkIndex *int, do
 				// Atomic block exceeds max - split by sentences as last resort
 				for _, atomicElem := range atomicElements {
 					if len(atomicElem.Text) > c.config.MaxChunkSize {
+						// Emit what precedes the oversized element first
+						if currentText.Len() > 0 {
+							flushChunk()
+						}
 						sentenceChunks := c.splitBySentences(atomicElem.Text, section, chunkIndex, docTitle, atomicElem)
 						chunks = append(chunks, sentenceChunks...)
 					} else {
